@@ -28,6 +28,7 @@ DEPENDS = {
     "C07": ["C02", "C20"],                               # what annotate writes is read back by the tag reader; notices are built by C20's builder
     "C09": ["C07"],                                      # information survives a run only if what is written is read back
     "C10": ["C07", "C08"],                               # the second run must find and reproduce what the first one wrote
+    "C12": ["C02"],                                      # a tag outside every block contributes with exactly its value
     "C13": ["C03"],                                      # lint-file = lint on the covered files among F
     "C15": ["C03"],                                      # annotate --recursive touches exactly the covered files
     "C17": ["C05"],                                      # the converted globs are interpreted by the REUSE.toml matcher
